@@ -16,7 +16,8 @@ REPO = os.environ.get('VERIF_REPO', '/repo')
 COQ = os.path.join(VERIF, 'coq')
 THEORIES = os.path.join(COQ, 'theories')
 WORKROOT = os.path.join(VERIF, '_work')
-NCPU = max(1, min(16, os.cpu_count() or 1))
+NCPU = max(1, min(16, int(os.environ.get('VERIF_NCPU') or (os.cpu_count() or 1))))
+OUTROOT = os.environ.get('VERIF_OUT') or VERIF      # where evidence/ and replays/ are written (campaign runs redirect it)
 
 ALLOWED_AXIOMS = set()   # the development is expected to be closed under the global context
 
@@ -321,7 +322,7 @@ def sig_hash(sig):
 
 
 def write_replay(prop_id, name, payload):
-    d = os.path.join(VERIF, 'replays')
+    d = os.path.join(OUTROOT, 'replays')
     os.makedirs(d, exist_ok=True)
     path = os.path.join(d, '%s_%s.json' % (prop_id, name))
     with open(path, 'w') as f:
@@ -330,7 +331,7 @@ def write_replay(prop_id, name, payload):
 
 
 def write_evidence(prop_id, tier, seed, coverage, wall_s, violations, assumptions=None):
-    d = os.path.join(VERIF, 'evidence')
+    d = os.path.join(OUTROOT, 'evidence')
     os.makedirs(d, exist_ok=True)
     ev = dict(property_id=prop_id, tier=tier, seed=int(seed), level='proof', coverage=coverage,
               assumptions=assumptions or TRUSTED_BASE, wall_s=round(wall_s, 2), violations=int(violations))
